@@ -169,18 +169,10 @@ class DupScenario(wfscn.ProgScenario):
         for t in post['task_executions_v2']:
             k = (t['workflow_execution_id'], t['name'])
             names[k] = names.get(k, 0) + 1
-        m = self.model()
-        mx = {}
-        for o in m['outcomes']:
-            c = {}
-            for t in o['tasks']:
-                c[t[0]] = c.get(t[0], 0) + 1
-            for k, n in c.items():
-                mx[k] = max(mx.get(k, 0), n)
         for (wid, name), n in names.items():
-            if n > mx.get(name, 0) and not m['truncated']:
-                v.append('task %s created %d times (the definition allows '
-                         '%d)' % (name, n, mx.get(name, 0)))
+            if n > 1:
+                v.append('task %s created %d times in one execution'
+                         % (name, n))
         roots = [x for x in post['workflow_executions_v2']
                  if not x['task_execution_id']]
         if len(roots) > 1:
@@ -189,7 +181,7 @@ class DupScenario(wfscn.ProgScenario):
         # executor side: holds in every later state as well
         for aid, info in w.extra['redelivered_actions'].items():
             runs_after = [r for r in w.run_log[info['runs_at']:]
-                          if r[0] == info['key']]
+                          if r[2] == aid]
             results = [x for x in w.msg_log
                        if x[2] == 'on_action_complete' and aid in x[3]
                        and x[0] > info['msg_seq']]
